@@ -21,10 +21,10 @@ def stream(chk):
     for m in small:
         for t in (-12.0, 0.0, 6.0, 12.0, 18.0, 24.0, 36.0):
             out.append((m, t, 'small'))
-    for _ in range(chk.n(1500, 20000)):
+    for _ in range(chk.n(1500, 80000)):
         m, t = cl.gen_matrix(chk.rng, maxn=chk.n(8, 10), exact=True)
         out.append((m, t, 'random-exact'))
-    for _ in range(chk.n(600, 8000)):
+    for _ in range(chk.n(600, 32000)):
         m, t = cl.gen_matrix(chk.rng, maxn=chk.n(8, 14), exact=False)
         out.append((m, t, 'random-float'))
     return out
@@ -104,7 +104,7 @@ def orientations(chk):
     """taxa / revert / flat_upgma / clustering.flat_cluster wrappers describe the same partition"""
     rng = chk.rng
     fails = []
-    n = chk.n(900, 8000)
+    n = chk.n(900, 32000)
     for _ in range(n):
         m, t = cl.gen_matrix(rng, maxn=8, exact=rng.random() < 0.7)
         link = rng.choice(cl.LINKS)
@@ -143,7 +143,7 @@ def orientations(chk):
 def textbook_check(chk):
     rng = chk.rng
     fails = []
-    n = chk.n(600, 5000)
+    n = chk.n(600, 20000)
     used = 0
     for _ in range(n):
         k = rng.choice([3, 4, 5, 6, 7])
@@ -176,7 +176,7 @@ def threshold_pairs(chk):
     tie_b = {}
     correspondence(chk, with_oracle=False, record=tie_b)
     drv = common.Driver()
-    n = chk.n(1800, 20000)
+    n = chk.n(1800, 80000)
     per = {l: {'fails': [], 'badp': [], 'chains': [], 'n': 0} for l in cl.LINKS}
     pairs = []
     for _ in range(n):
@@ -185,7 +185,7 @@ def threshold_pairs(chk):
         t2 = rng.choice(vals + [t1, t1 + 1.0, 2 * max(vals) if vals else 1.0])
         pairs.append((m, min(t1, t2), max(t1, t2)))
     # linkage values that differ only in the last bits: which pair is "the closest" must not depend on the threshold in use
-    for _ in range(chk.n(400, 4000)):
+    for _ in range(chk.n(400, 16000)):
         m, sweep = cl.gen_near_tie(rng)
         for _k in range(4):
             t1, t2 = sorted(rng.sample(sweep, 2))
